@@ -2662,8 +2662,23 @@ func _return(n *node) {
 	}
 }
 
+// genValueLit returns the function giving the location where the value of the composite
+// literal n is stored. Each evaluation of a literal creates a new variable, which may be
+// referenced by a pointer or a closure, except if it is assigned to an existing variable.
+func genValueLit(n *node) func(*frame) reflect.Value {
+	if n.anc.kind == assignStmt {
+		return valueGenerator(n, n.findex)
+	}
+	i, l := n.findex, n.level
+	return func(f *frame) reflect.Value {
+		data := getFrame(f, l).data
+		data[i] = reflect.New(data[i].Type()).Elem()
+		return data[i]
+	}
+}
+
 func arrayLit(n *node) {
-	value := valueGenerator(n, n.findex)
+	value := genValueLit(n)
 	next := getExec(n.tnext)
 	child := n.child
 	if n.nleft == 1 {
@@ -2707,7 +2722,7 @@ func arrayLit(n *node) {
 }
 
 func mapLit(n *node) {
-	value := valueGenerator(n, n.findex)
+	value := genValueLit(n)
 	next := getExec(n.tnext)
 	child := n.child
 	if n.nleft == 1 {
@@ -2732,7 +2747,7 @@ func mapLit(n *node) {
 }
 
 func compositeBinMap(n *node) {
-	value := valueGenerator(n, n.findex)
+	value := genValueLit(n)
 	next := getExec(n.tnext)
 	child := n.child
 	if n.nleft == 1 {
@@ -2764,7 +2779,7 @@ func compositeBinMap(n *node) {
 }
 
 func compositeBinSlice(n *node) {
-	value := valueGenerator(n, n.findex)
+	value := genValueLit(n)
 	next := getExec(n.tnext)
 	child := n.child
 	if n.nleft == 1 {
